@@ -5,6 +5,7 @@
 //! exit 0 = held on everything explored, 1 = violation (VIOLATION line printed), 2 = machinery error
 
 mod alloc;
+mod faults;
 mod fixture;
 mod fsm;
 mod memlink;
